@@ -85,6 +85,16 @@ def observe(dec, pgn: int, payload: bytes) -> dict:
     return {"pgn": pgn, "p": list(payload), "ret": "msg", "id": msg.id}
 
 
+_TWIN: list = []
+
+
+def _twin():
+    if not _TWIN:
+        from nmea2000.decoder import NMEA2000Decoder
+        _TWIN.append(NMEA2000Decoder())
+    return _TWIN[0]
+
+
 def observe_frames(dec, d: dict, payload: bytes, seq: list) -> dict | None:
     from .. import fastpacket as fp
     pgn = d["pgn"]
@@ -108,6 +118,11 @@ def observe_frames(dec, d: dict, payload: bytes, seq: list) -> dict | None:
     msg = None
     try:
         for pk in packets:
+            # a second decoder instance of the same process (another gateway's) sees the same bus: every frame reaches it first
+            try:
+                _twin().decode_tcp(pk)
+            except Exception:                   # noqa: BLE001
+                pass
             msg = dec.decode_tcp(pk)
     except Exception as e:                      # noqa: BLE001
         ident = ""
